@@ -307,10 +307,10 @@ theorem uncovered_request_raises (reg : List EquivRec) (m : Mode) (xdim tdim : D
 theorem uncovered_request_returns_nothing {K : Type} [Add K] [Sub K] [Mul K] [Div K] [OfNat K 0]
     [OfNat K 1] [BEq K] [RPow K] [HasSqrt K] [OfRat K] [OfBits K]
     (pre : Prefixes K) (t : Lut K) (reg : List EquivRec) (consts params : List (String × K))
-    (m : Mode) (u target : UnitV K) (xv : K) (name : String)
+    (m : Mode) (u target : UnitV K) (uSelf xv : K) (name : String)
     (e : EquivRec) (hf : findEquiv reg name = some e) (hne : u.dim ≠ target.dim)
     (hun : u.dim ∉ e.dims ∨ target.dim ∉ e.dims) :
-    convertValue pre t reg consts params m u xv target (some name) = .error .InvalidUnitEquivalence := by
+    convertValue pre t reg consts params m u uSelf xv target (some name) = .error .InvalidUnitEquivalence := by
   unfold convertValue
   rw [(uncovered_request_raises reg m u.dim target.dim name e hf hne hun).2]
 
@@ -361,10 +361,10 @@ theorem covered_request_converts (e : EquivRec) (he : e ∈ equivalences) (m : M
 theorem convertValue_si {K : Type} [Lean.Grind.Field K] [BEq K] [LawfulBEq K] [RPow K] [HasSqrt K]
     [OfRat K] [OfBits K]
     (pre : Prefixes K) (t : Lut K) (reg : List EquivRec) (consts supplied : List (String × K))
-    (m : Mode) (u target : UnitV K) (xv : K) (eqv : Option String) (f : Formula)
+    (m : Mode) (u target : UnitV K) (uSelf xv : K) (eqv : Option String) (f : Formula)
     (hroute : inUnitsRoute reg m u.dim target.dim eqv = .ok (.via f))
     (hu : u.offset = 0) (ht : target.offset = 0) (hs : target.scale ≠ 0) (v : K)
-    (h : convertValue pre t reg consts supplied m u xv target eqv = .ok v) :
+    (h : convertValue pre t reg consts supplied m u uSelf xv target eqv = .ok v) :
     toBase target.scale target.offset v
       = f.eval (mkEnv consts (effectiveParams reg eqv supplied) (toBase u.scale u.offset xv)) := by
   unfold convertValue at h
@@ -373,6 +373,8 @@ theorem convertValue_si {K : Type} [Lean.Grind.Field K] [BEq K] [LawfulBEq K] [R
   · by_cases h2 : (f.atoms.all (bound consts (effectiveParams reg eqv supplied))) = true
     · have h3 : (u.offset != 0) = false := by simp [hu]
       simp only [h1, h2, h3, Bool.not_true, Bool.false_and, Bool.false_eq_true, if_false] at h
+      split at h
+      · cases h
       have hd : ((target.dim != target.dim) = false) := by simp
       simp only [toValue, inUnits, getConversionFactor, hd, ht, Bool.false_eq_true, if_false,
         beq_self_eq_true, Bool.and_self, if_true, Except.map, applyFactor] at h
@@ -390,10 +392,10 @@ theorem convertValue_si {K : Type} [Lean.Grind.Field K] [BEq K] [LawfulBEq K] [R
 theorem offset_input_refused {K : Type} [Add K] [Sub K] [Mul K] [Div K] [OfNat K 0] [OfNat K 1]
     [BEq K] [RPow K] [HasSqrt K] [OfRat K] [OfBits K]
     (pre : Prefixes K) (t : Lut K) (reg : List EquivRec) (consts supplied : List (String × K))
-    (m : Mode) (u target : UnitV K) (xv : K) (eqv : Option String) (f : Formula)
+    (m : Mode) (u target : UnitV K) (uSelf xv : K) (eqv : Option String) (f : Formula)
     (hroute : inUnitsRoute reg m u.dim target.dim eqv = .ok (.via f))
     (hx : f.xInArith = true) (ho : (u.offset != 0) = true) (v : K) :
-    convertValue pre t reg consts supplied m u xv target eqv ≠ .ok v := by
+    convertValue pre t reg consts supplied m u uSelf xv target eqv ≠ .ok v := by
   unfold convertValue
   simp only [hroute]
   by_cases h1 : acceptsParams reg eqv (supplied.map (·.1)) = true
@@ -416,8 +418,8 @@ def C09_offset_full : Prop :=
     ∀ (K : Type) [Add K] [Sub K] [Mul K] [Div K] [OfNat K 0] [OfNat K 1] [BEq K] [RPow K]
       [HasSqrt K] [OfRat K] [OfBits K]
       (pre : Prefixes K) (t : Lut K) (consts supplied : List (String × K)) (u target : UnitV K)
-      (xv : K), u.dim = a → target.dim = b → (u.offset != 0) = true →
-        ∀ v, convertValue pre t equivalences consts supplied m u xv target (some e.name) ≠ .ok v
+      (uSelf xv : K), u.dim = a → target.dim = b → (u.offset != 0) = true →
+        ∀ v, convertValue pre t equivalences consts supplied m u uSelf xv target (some e.name) ≠ .ok v
 
 /-- it holds for every equivalence except `effective_temperature` (explicit guard) -/
 theorem C09_offset_partial :
@@ -426,9 +428,9 @@ theorem C09_offset_partial :
     ∀ (K : Type) [Add K] [Sub K] [Mul K] [Div K] [OfNat K 0] [OfNat K 1] [BEq K] [RPow K]
       [HasSqrt K] [OfRat K] [OfBits K]
       (pre : Prefixes K) (t : Lut K) (consts supplied : List (String × K)) (u target : UnitV K)
-      (xv : K), u.dim = a → target.dim = b → (u.offset != 0) = true →
-        ∀ v, convertValue pre t equivalences consts supplied m u xv target (some e.name) ≠ .ok v := by
-  intro e he hne m a b ha hb hab K _ _ _ _ _ _ _ _ _ _ _ pre t consts supplied u target xv hua htb ho v
+      (uSelf xv : K), u.dim = a → target.dim = b → (u.offset != 0) = true →
+        ∀ v, convertValue pre t equivalences consts supplied m u uSelf xv target (some e.name) ≠ .ok v := by
+  intro e he hne m a b ha hb hab K _ _ _ _ _ _ _ _ _ _ _ pre t consts supplied u target uSelf xv hua htb ho v
   obtain ⟨f, hroute, hmf⟩ := covered_request_converts e he m a b ha hb hab
   have h1 := table_offset_refusal
   rw [List.all_eq_true] at h1
@@ -455,7 +457,7 @@ theorem C09_offset_partial :
           simp only [hc, hi, Bool.and_eq_true] at h3
           rw [hi] at hmf; injection hmf with hmf; subst hmf; exact h3.2
   subst hua htb
-  exact offset_input_refused pre t equivalences consts supplied m u target xv (some e.name) f
+  exact offset_input_refused pre t equivalences consts supplied m u target uSelf xv (some e.name) f
     (by simpa [inUnitsRoute] using hroute) hx ho v
 
 section counterexample
@@ -474,7 +476,7 @@ def constsRat : List (String × Rat) := equivConstants.map (fun c => (c.1, ratOf
 
 /-- what the model (and unyt) returns for `(25 °C).to_equivalent("W/m**2", "effective_temperature")` -/
 def offsetWitness : Except Err Rat :=
-  convertValue (defaultPrefixes Rat) (defaultLut Rat) equivalences constsRat [] .copy degCRat 25 fluxSI
+  convertValue (defaultPrefixes Rat) (defaultLut Rat) equivalences constsRat [] .copy degCRat 1 25 fluxSI
     (some "effective_temperature")
 
 /-- **counterexample** (exact arithmetic on the regenerated tables): 25 °C is converted to
@@ -499,11 +501,92 @@ theorem C09_offset_full_false : ¬ C09_offset_full := by
         ∧ Ref.C09.dFlux ∈ e.dims ∧ Ref.C09.dTemperature ≠ Ref.C09.dFlux := by decide +kernel
     obtain ⟨e, he, hn, ha, hb, hab⟩ := hmem
     have := hfull e he .copy _ _ ha hb hab Rat (defaultPrefixes Rat) (defaultLut Rat) constsRat []
-      degCRat fluxSI 25 hw.2.2 rfl hw.2.1 v
+      degCRat fluxSI 1 25 hw.2.2 rfl hw.2.1 v
     rw [hn] at this
     exact this hv
 
 end counterexample
+
+/-! ### in-place requests versus copying requests, at the level of the numbers -/
+
+/-- for every ordered pair, the in-place chain leaves *syntactically* the formula the copy
+    chain returns (so the two agree on every carrier, `Float` included) -/
+theorem table_inplace_syntactic :
+    equivalences.all (fun e => (orderedPairs e.dims).all (fun p =>
+      e.modeFormula .inplace p.1 p.2 == e.modeFormula .copy p.1 p.2)) = true := by
+  decide +kernel
+
+/-- full statement: `convert_to_equivalent` / `convert_to_units(equivalence=)` yield what
+    `to_equivalent` / `to` yield, for every covered request, unit spelling, value and keyword -/
+def C09_inplace_full : Prop :=
+  ∀ e ∈ equivalences, ∀ (a b : Dim), a ∈ e.dims → b ∈ e.dims → a ≠ b →
+    ∀ (K : Type) [Add K] [Sub K] [Mul K] [Div K] [OfNat K 0] [OfNat K 1] [BEq K] [RPow K]
+      [HasSqrt K] [OfRat K] [OfBits K]
+      (pre : Prefixes K) (t : Lut K) (consts supplied : List (String × K)) (u target : UnitV K)
+      (uSelf xv : K), u.dim = a → target.dim = b →
+        convertValue pre t equivalences consts supplied .inplace u uSelf xv target (some e.name)
+          = convertValue pre t equivalences consts supplied .copy u uSelf xv target (some e.name)
+
+/-- it holds whenever the input's own unit expression does not simplify to a coefficient
+    (`uSelf = 1`: no two atoms of the same dimension) — explicit guard -/
+theorem C09_inplace_partial :
+    ∀ e ∈ equivalences, ∀ (a b : Dim), a ∈ e.dims → b ∈ e.dims → a ≠ b →
+    ∀ (K : Type) [Add K] [Sub K] [Mul K] [Div K] [OfNat K 0] [OfNat K 1] [BEq K] [RPow K]
+      [HasSqrt K] [OfRat K] [OfBits K]
+      (pre : Prefixes K) (t : Lut K) (consts supplied : List (String × K)) (u target : UnitV K)
+      (uSelf xv : K), u.dim = a → target.dim = b → (uSelf != 1) = false →
+        convertValue pre t equivalences consts supplied .inplace u uSelf xv target (some e.name)
+          = convertValue pre t equivalences consts supplied .copy u uSelf xv target (some e.name) := by
+  intro e he a b ha hb hab K _ _ _ _ _ _ _ _ _ _ _ pre t consts supplied u target uSelf xv hua htb hself
+  obtain ⟨f, hrf, hmf⟩ := covered_request_converts e he .copy a b ha hb hab
+  obtain ⟨g, hrg, hmg⟩ := covered_request_converts e he .inplace a b ha hb hab
+  have h1 := table_inplace_syntactic
+  rw [List.all_eq_true] at h1
+  have h2 := h1 e he
+  rw [List.all_eq_true] at h2
+  have h3 := h2 (a, b) (mem_orderedPairs ha hb hab)
+  simp only [beq_iff_eq] at h3
+  have hfg : g = f := by
+    rw [hmg, hmf] at h3
+    injection h3
+  subst hfg hua htb
+  unfold convertValue
+  simp only [inUnitsRoute, hrf, hrg, hself, Bool.and_false]
+
+section counterexample2
+open RatCarrier
+
+/-- `K*cm/angstrom`: a temperature unit whose own expression simplifies to `10⁸ K` -/
+def reducibleK : UnitV Rat :=
+  ⟨⟨1, [("K", 1), ("angstrom", -1), ("cm", 1)]⟩, 100000000, 0, Ref.C09.dTemperature, true⟩
+
+def jouleRat : UnitV Rat := ⟨UExpr.one, 1, 0, Ref.C09.dEnergy, true⟩
+
+/-- **counterexample**: `x = 3 K*cm/angstrom`, `thermal`, target J — the copying request
+    returns a number, the in-place request fails (`RecursionError`, a `RuntimeError`).  The
+    harness replays this on the real code on every run. -/
+theorem C09_inplace_counterexample :
+    (match convertValue (defaultPrefixes Rat) (defaultLut Rat) equivalences constsRat [] .copy
+              reducibleK 100000000 3 jouleRat (some "thermal"),
+           convertValue (defaultPrefixes Rat) (defaultLut Rat) equivalences constsRat [] .inplace
+              reducibleK 100000000 3 jouleRat (some "thermal") with
+      | .ok _, .error .RuntimeError => true
+      | _, _ => false) = true := by
+  decide +kernel
+
+theorem C09_inplace_full_false : ¬ C09_inplace_full := by
+  intro hfull
+  have hmem : ∃ e ∈ equivalences, e.name = "thermal" ∧ Ref.C09.dTemperature ∈ e.dims
+      ∧ Ref.C09.dEnergy ∈ e.dims ∧ Ref.C09.dTemperature ≠ Ref.C09.dEnergy := by decide +kernel
+  obtain ⟨e, he, hn, ha, hb, hab⟩ := hmem
+  have h := hfull e he _ _ ha hb hab Rat (defaultPrefixes Rat) (defaultLut Rat) constsRat []
+    reducibleK jouleRat 100000000 3 rfl rfl
+  rw [hn] at h
+  have hw := C09_inplace_counterexample
+  rw [h] at hw
+  split at hw <;> simp_all
+
+end counterexample2
 
 /-! ### the property at full strength -/
 
